@@ -2,6 +2,7 @@ SPECIFICATION Spec
 CONSTANTS
   Dials <- DialsB
   Accepts <- AcceptsB
+  AbortDials <- NoAborts
   DSide <- CSide
   DId <- CId
   ASide <- CSide
